@@ -131,6 +131,23 @@ let run (cmd : string) (a : v) : v =
       let cap = { qnum = z_of_int n; qden = pos_of_int d } in
       vlist (fun k -> match exp_decay_q cap (nat_of_int (geti k)) with
                       | None -> S "error" | Some q -> L [I (int_of_z q.qnum); I (int_of_pos q.qden)]) ks
+  | "register", L [L nodes; L skipn; L skipc; I root] ->
+      let nd = function
+        | L [I cls; I lin; I conv; L ps; L ch] ->
+            { n_cls = nat_of_int cls; n_linear = (lin <> 0); n_conv = (conv <> 0);
+              n_params = List.map (fun b -> geti b <> 0) ps;
+              n_children = List.map (function L [I nm; I c] -> (nat_of_int nm, (if c < 0 then None else Some (nat_of_int c))) | _ -> failwith "child") ch }
+        | _ -> failwith "node" in
+      let g = List.map nd nodes in
+      let tbl = List.map (function L [L p; I b] -> (List.map (fun x -> nat_of_int (geti x)) p, b <> 0) | _ -> failwith "skipn") skipn in
+      let sn = table_fun tbl in
+      let skc = List.map (fun x -> geti x) skipc in
+      let sc c = List.mem (int_of_nat c) skc in
+      let r = nat_of_int root in
+      let vpath p = vlist vnat p in
+      L [ vlist (fun (p, id) -> L [vpath p; vnat id]) (named_modules g r);
+          vlist (fun ((p, id), k) -> L [vpath p; vnat id; S (match k with KLinear -> "linear" | KConv -> "conv")]) (register g sn sc r);
+          L (List.mapi (fun i _ -> let (a, b) = hooks g sn sc r (nat_of_int i) in L [vnat a; vnat b]) nodes) ]
   | _ -> failwith ("unknown command or bad argument: " ^ cmd)
 
 let () =
